@@ -143,6 +143,14 @@ AggMenu ==
               [ItC("count_distinct", "v", "d") EXCEPT !.wrap = Arith("-", Lit(IntV(100)), Col("$value"))], [MinOfV EXCEPT !.wrap = Arith("*", Col("$value"), Lit(IntV(2)))]>>, <<K>>, NoE, NoH, FALSE, NoLimit, "none"),
         Agg(<<KeyK, [SumV EXCEPT !.wrap = Arith("+", One, Arith("*", Col("$value"), Lit(IntV(2))))], [MaxOfV EXCEPT !.wrap = Arith("*", Lit(IntV(2)), Arith("+", Col("$value"), One))],
               [CountStar EXCEPT !.wrap = Arith("-", Lit(IntV(100)), Arith("*", Col("$value"), Lit(IntV(10))))]>>, <<K>>, NoE, NoH, FALSE, NoLimit, "none"),
+        \* wrappers whose outer node is a unary minus, NOT or a cast around a deeper arithmetic wrapper; the aggregate deep inside a CASE
+        Agg(<<KeyK, [SumV EXCEPT !.wrap = NegE(Arith("+", Col("$value"), One))], [MaxOfV EXCEPT !.wrap = Cast(Arith("*", Col("$value"), Lit(IntV(3))), "text")],
+              [CountStar EXCEPT !.wrap = NotE(CmpE(">", Arith("*", Col("$value"), Two), Lit(IntV(2))))], [MinOfV EXCEPT !.wrap = NegE(Col("$value"))]>>, <<K>>, NoE, NoH, FALSE, NoLimit, "none"),
+        Agg(<<KeyK, [CountV EXCEPT !.wrap = NegE(NegE(Arith("-", Col("$value"), One)))], [SumV EXCEPT !.wrap = Call("abs", <<Arith("-", Col("$value"), Lit(IntV(5)))>>)]>>, <<K>>, NoE, NoH, FALSE, NoLimit, "none"),
+        \* HAVING on an aggregate that the select list shows inside a wrapper: the condition is about the aggregate, not about the shown value
+        Agg(<<KeyK, [SumV EXCEPT !.wrap = Arith("*", Col("$value"), Two)]>>, <<K>>, NoE, HAgg(SumV, ">=", IntV(2)), FALSE, NoLimit, "none"),
+        Agg(<<[CountStar EXCEPT !.wrap = Arith("-", Col("$value"), One)], KeyK>>, <<K>>, NoE, HAgg(CountStar, ">=", IntV(2)), FALSE, NoLimit, "none"),
+        Agg(<<KeyK, [MaxOfV EXCEPT !.wrap = Arith("+", Col("$value"), Lit(IntV(10)))], SumV>>, <<K>>, NoE, [h |-> "and", l |-> HAgg(MaxOfV, "<", IntV(5)), r |-> HAgg(SumV, ">", IntV(0))], FALSE, NoLimit, "none"),
         Agg(<<KeyK, ItE("key", V, "v"), CountStar>>, <<K, V>>, NoE, NoH, FALSE, NoLimit, "none"),
         Agg(<<ItE("key", V, "v"), CountStar>>, <<K>>, NoE, NoH, FALSE, NoLimit, "none")}       \* key expression not in GROUP BY: error
 
@@ -215,6 +223,9 @@ CalMenu ==
    CalSel(<<P(Call("sqrt", <<V>>), "bad")>>, OnRow1),                                  \* sqrt(INT): type mismatch
    CalSel(<<P(Call("regex_matches", <<K, T_(<<94, 97>>)>>), "front"), P(Call("regex_matches", <<K, T_(<<98, 36>>)>>), "back"), P(Call("regex_matches", <<K, T_(<<97>>)>>), "has"),
             P(Call("regex_matches", <<K, T_(<<94, 97, 36>>)>>), "whole"), P(Call("regex_matches", <<Col("input"), T_(<<118, 61, 49>>)>>), "line")>>, NoE),
+   \* the pattern is a value of the row (a column, a CASE): it differs from row to row, and a row whose pattern is no regular expression is an error there only
+   CalSel(<<P(Call("regex_matches", <<T_(<<120, 97>>), K>>), "m"), P(Call("regex_matches", <<K, CaseE(<<<<OnRow1, T_(<<94, 97>>)>>>>, T_(<<98, 36>>))>>), "c"), P(K, "")>>, IsE(TRUE, K, Lit(Null))),
+   CalSel(<<P(Call("regex_matches", <<K, CaseE(<<<<OnRow1, T_(<<40>>)>>>>, T_(<<97>>))>>), "badpat")>>, NoE),
    CalSel(<<P(Call("regex_matches", <<V, T_(<<97>>)>>), "bad")>>, OnRow1),
    CalSel(<<P(K, "")>>, Call("regex_matches", <<K, T_(<<94, 97>>)>>))}
   \cup {CalSel(<<P(Call("date_trunc", <<T_(pt), TsFrac>>), "t"), P(Call("date_trunc", <<T_(pt), TsOfV>>), "tv")>>, NoE) : pt \in TruncPartTexts}
@@ -265,6 +276,33 @@ CalBoundaryAggMenu ==
   {Agg(<<ItE(a, x, "r")>>, <<>>, NoE, NoH, FALSE, NoLimit, "none") : a \in {"sum", "avg", "min", "max", "stddev", "variance"}, x \in {BigIv, NegBigIv, H130, Cast(T_(<<57, 57, 57, 57, 57, 57, 57, 57, 57, 57, 57, 57, 57, 57, 57, 57, 58, 48, 58, 48>>), "interval")}}
   \cup {Agg(<<[a |-> "percentile", e |-> BigIv, pn |-> 1, pd |-> 2, as |-> "p50", wrap |-> NoE], ItE("array_agg", NegBigIv, "aa")>>, <<>>, NoE, NoH, FALSE, NoLimit, "none")}
 
+\* C03 / C13: statements the harness writes with the FEWEST parentheses the standard precedence allows (field min: what a user types);
+\* the tree is the intended grouping, so an operator table or a precedence-climbing loop that groups differently gives other rows
+SelMin(proj, where) == [kind |-> "select", star |-> FALSE, proj |-> proj, where |-> where, distinct |-> FALSE, limit |-> NoLimit, join |-> "none", min |-> TRUE]
+Seven == Cast(T_(<<55>>), "int")
+PrecMenu == {
+  SelMin(<<P(Arith("-", Arith("-", V, Arith("*", Two, I_(3))), I_(4)), "a"),                 \* v - 2 * 3 - 4
+           P(Arith("-", Arith("-", I_(100), Seven), V), "b"),                                 \* 100 - '7'::int - v
+           P(Arith("+", Arith("-", I_(10), Col("t.v")), One), "c"),                           \* 10 - t.v + 1
+           P(Arith("/", Arith("/", I_(100), Cast(T_(<<53>>), "int")), Two), "d"),             \* 100 / '5'::int / 2
+           P(Arith("-", Arith("-", V, Idx(Arr78, One)), One), "e"),                            \* v - array[7, 8][1] - 1
+           P(Arith("+", Arith("*", V, Two), Arith("*", I_(3), V)), "f"),                       \* v * 2 + 3 * v
+           P(Arith("*", Arith("+", V, Two), I_(3)), "g")>>, NoE),                               \* (v + 2) * 3
+  SelMin(<<P(V, "v"), P(K, "k")>>, BoolE("or", CmpE("=", V, One), BoolE("and", CmpE("=", V, Two), CmpE("=", K, Lit(A))))),      \* v = 1 OR v = 2 AND k = 'a'
+  SelMin(<<P(V, "v")>>, BoolE("and", BoolE("or", CmpE("=", V, One), CmpE("=", V, Two)), CmpE("=", K, Lit(A)))),                  \* (v = 1 OR v = 2) AND k = 'a'
+  SelMin(<<P(V, "v")>>, NotE(CmpE("=", V, One))),                                                                                \* NOT v = 1
+  SelMin(<<P(V, "v")>>, BoolE("and", NotE(CmpE("=", V, One)), CmpE("=", K, Lit(A)))),                                            \* NOT v = 1 AND k = 'a'
+  SelMin(<<P(V, "v")>>, CmpE("=", V, NegE(One))),                                                                                \* v = -1
+  SelMin(<<P(Arith("-", V, NegE(One)), "m"), P(NegE(Seven), "n"), P(NegE(Col("t.v")), "o"), P(Arith("*", NegE(V), NegE(Two)), "p")>>, NoE),     \* v - -1, -'7'::int, -t.v, -v * -2
+  SelMin(<<P(V, "v")>>, InE(FALSE, V, <<One>>)),                                                                                 \* v IN (1)
+  SelMin(<<P(V, "v")>>, NotE(IsE(TRUE, V, Lit(Null)))),                                                                          \* NOT v IS NOT NULL
+  SelMin(<<P(V, "v")>>, NotE(InE(TRUE, V, <<One, Two>>))),                                                                       \* NOT v NOT IN (1, 2)
+  SelMin(<<P(CmpE("=", IsE(TRUE, V, Lit(Null)), Lit(BoolV(FALSE))), "q"), P(CmpE("=", InE(TRUE, V, <<One, Two>>), Lit(BoolV(TRUE))), "r"),
+           P(CmpE("=", CmpE("<", V, Arith("+", One, One)), Lit(BoolV(TRUE))), "s")>>, NoE),     \* v IS NOT NULL = FALSE, v NOT IN (1, 2) = TRUE, v < 1 + 1 = TRUE
+  SelMin(<<P(CaseE(<<<<BoolE("or", CmpE(">", V, One), IsE(FALSE, K, Lit(Null))), Arith("-", Arith("-", V, One), One)>>>>, NegE(V)), "t")>>, NoE),
+  SelMin(<<P(Cast(Arith("+", V, One), "text"), "u"), P(Arith("+", Cast(Cast(V, "text"), "int"), One), "w")>>, IsE(TRUE, V, Lit(Null)))   \* (v + 1)::text, v::text::int + 1
+}
+
 \* a small menu for interrupt / incremental / file-split exploration
 CoreMenu == {PlainKV, Sel(<<P(K, "")>>, NoE, TRUE, NoLimit, "none"), Star(VPos, FALSE, NoLimit, "none"),
              Agg(<<KeyK, CountStar, SumV>>, <<K>>, NoE, NoH, FALSE, NoLimit, "none"),
@@ -288,9 +326,11 @@ JoinMenu == {
 
 \* C16: every consumer of the value order on every pair of same-kind values of the boundary universe
 Renderable(x) == ~IsNull(x) /\ (x.t = "arr" => (x.xs # <<>> /\ \E i \in 1..Len(x.xs) : ~IsNull(x.xs[i])))
-Pairs == {p \in U \X U : TypeRank(p[1]) = TypeRank(p[2]) /\ Renderable(p[1]) /\ Renderable(p[2]) /\ (p[1].t = "arr" => p[1].et = p[2].et)}
+\* (parametrised so that TLC does not evaluate these large sets at start-up in every configuration: MC_EnginePairs.tla instantiates them)
+PairsF(zz) == {p \in U \X U : TypeRank(p[1]) = TypeRank(p[2]) /\ Renderable(p[1]) /\ Renderable(p[2]) /\ (p[1].t = "arr" => p[1].et = p[2].et)}
 Pick(x, y) == CaseE(<<<<CmpE("=", V, One), Lit(x)>>>>, Lit(y))
-PairMenu ==
+PairMenuF(zz) ==
+  LET Pairs == PairsF(zz) IN
   {Sel(<<P(CmpE("=", Lit(p[1]), Lit(p[2])), "eq"), P(CmpE("<", Lit(p[1]), Lit(p[2])), "lt"), P(CmpE(">=", Lit(p[1]), Lit(p[2])), "ge"),
          P(CmpE("!=", Lit(p[1]), Lit(p[2])), "ne")>>, NoE, FALSE, NoLimit, "none") : p \in Pairs}
   \cup {Sel(<<P(Pick(p[1], p[2]), "x")>>, NoE, TRUE, NoLimit, "none") : p \in Pairs}
